@@ -16,6 +16,15 @@ def main():
         selftest_models.main()
     except ImportError:
         pass
+    # self-tests of the scheduler / history explorer, the FPCore text evaluator and the format-membership model
+    import os
+    import subprocess
+    root = os.path.dirname(os.path.dirname(os.path.abspath(__file__)))
+    tests = [os.path.join(root, 'tests', t) for t in ('test_sched_c18.py', 'test_fpcore_c12.py', 'test_member_c14.py')]
+    r = subprocess.run([sys.executable, '-W', 'ignore', '-m', 'pytest', '-q', '-p', 'no:cacheprovider', *tests],
+                       cwd=root, capture_output=True, text=True)
+    print(r.stdout.strip().splitlines()[-1] if r.stdout.strip() else r.stderr[-400:])
+    assert r.returncode == 0, r.stdout[-2000:]
     print('selftest ok; fpy2 from', fpy2.__file__)
 
 
